@@ -411,6 +411,15 @@ type MethodHandler[V any] interface {
 	GetMethod(value V, methodName string) (Function[V], error)
 }
 
+// MethodPurityHandler can be implemented by a MethodHandler. The type of the receiver of a
+// method call is not known when the code is generated, so a method call is treated as pure
+// only if no method of that name is declared impure. Without this information a closure
+// like v->v.tick() is a constant, and applied to constants it is evaluated while generating.
+type MethodPurityHandler interface {
+	// IsMethodPure returns false if a method of the given name is declared impure on any type.
+	IsMethodPure(methodName string) bool
+}
+
 type MethodHandlerFunc[V any] func(value V, methodName string) (Function[V], error)
 
 func (mh MethodHandlerFunc[V]) GetMethod(value V, methodName string) (Function[V], error) {
@@ -1206,6 +1215,10 @@ func (g *FunctionGenerator[V]) GenerateFunc(ast parser2.AST, gc GeneratorContext
 			return nil, false, err
 		}
 		name := a.Name
+		mPure := true
+		if mp, ok := g.methodHandler.(MethodPurityHandler); ok {
+			mPure = mp.IsMethodPure(name)
+		}
 		// the receiver is pushed before the arguments are evaluated
 		argsFuncList, aPure, err := g.genArgsList(a.Args, gc, 1)
 		if err != nil {
@@ -1265,7 +1278,7 @@ func (g *FunctionGenerator[V]) GenerateFunc(ast parser2.AST, gc GeneratorContext
 				return v, err
 			}
 			return zero, parser2.NewNotFoundError(name, a.Errorf("method %s not found", name))
-		}, fPure && aPure, nil
+		}, fPure && aPure && mPure, nil
 	}
 	return nil, false, ast.GetLine().Errorf("not supported: %v", ast)
 }
